@@ -57,6 +57,9 @@ func (r *Rec) Reset() {
 
 func (r *Rec) Header() http.Header { return r.H }
 func (r *Rec) WriteHeader(code int) {
+	if code < 100 || code > 999 {
+		panic(fmt.Sprintf("invalid WriteHeader code %v", code)) // as net/http's response writer and httptest's recorder do
+	}
 	r.WroteN++
 	if r.Status == 0 {
 		r.Status = code
